@@ -1,6 +1,6 @@
 (* C12/Witness.v — non-vacuity of the hypotheses of Properties.v and concrete instances
    (all by computation). *)
-From Verif Require Import Common.Base C12.Model C12.Proofs1 C12.Proofs2 C12.Proofs3 C12.Proofs4 C12.Proofs5 C12.Proofs7.
+From Verif Require Import Common.Base C12.Model C12.Proofs1 C12.Proofs2 C12.Proofs3 C12.Proofs4 C12.Proofs5 C12.Proofs7 C12.Proofs8 C12.Proofs9.
 From Coq Require Import Ascii.
 Require Coq.Strings.String.
 Import Coq.Strings.String.StringSyntax.
@@ -19,6 +19,7 @@ Definition tbl : list (str * retrieved) :=
     (L"R", mkRet (CStr (L"<${env:A}>")) None);
     (L"S", mkRet (CStr (L"[${env:R}$$${R}]")) None);
     (L"DOL", mkRet (CStr (L"$")) None);
+    (L"YL", mkRet (CList [CStr (L"a${env:R}"); CStr (L"${env:A}b")]) (Some (L"[a${env:R}, ${env:A}b]")));
     (L"CY", mkRet (CStr (L"${env:CY}")) None);
     (L"CA", mkRet (CStr (L"${env:CB}")) None);
     (L"CB", mkRet (CStr (L"b${env:CA}")) None) ].
@@ -238,3 +239,59 @@ Example ex_null_text :
   decode_string_field v = Some (L"null") /\ decode_int_field v = Some (Some 0%Z) /\
   decode_strlist_field v = Some [] /\ decode_strmap_field v = Some [] /\ sanitize v = CNil.
 Proof. repeat split. Qed.
+
+(* inputs made of references only: anchored by weight (two tokens with non-empty final meaning) *)
+Definition ex_refs_only : list tok := [TRef (L"env:R"); TRef (L"env:S")].
+Example ex_refs_only_anchored : nanchored ntxt 3 ex_refs_only.
+Proof. right. vm_compute. lia. Qed.
+Example ex_refs_only_wf : wf env retr (nval ntxt) ex_refs_only.
+Proof. unfold wf, ex_refs_only. wf_tac. Qed.
+Example ex_refs_only_good : good env retr ntxt 3 ex_refs_only.
+Proof. unfold good, ex_refs_only. repeat (apply Forall_cons; [first [apply gS | apply (proj1 (gR 1))]|]). apply Forall_nil. Qed.
+Example ex_refs_only_resolved :
+  resolve_string env retr (flatten ex_refs_only) = Ok (CStr (mean ntxt 3 ex_refs_only)) /\
+  mean ntxt 3 ex_refs_only = L"<va>[<va>$<va>]".
+Proof. split; vm_compute; reflexivity. Qed.
+
+(* a provider value that is a LIST of strings with (nested) references: hypotheses of
+   whole_value_list_of_token_strings are satisfiable, and the closed form is what the model computes *)
+Definition ex_tss : list (list tok) := [[TChar "a"%char; TRef (L"env:R")]; [TRef (L"env:A"); TChar "b"%char]].
+Definition ex_tso : list tok := chars "[a" ++ [TRef (L"env:R")] ++ chars ", " ++ [TRef (L"env:A")] ++ chars "b]".
+Lemma ex_tok_ok ts :
+  wf env retr (nval ntxt) ts -> good env retr ntxt 3 ts -> has_text ts = true -> cost ntxt 3 ts <= 998 ->
+  tok_ok env retr ntxt 3 ts.
+Proof. intros. unfold tok_ok. repeat split; auto. now left. Qed.
+Example ex_list_members : Forall (tok_ok env retr ntxt 3) ex_tss.
+Proof.
+  unfold ex_tss. repeat (apply Forall_cons; [|]); try apply Forall_nil; apply ex_tok_ok;
+    try reflexivity; try (vm_compute; lia); try (unfold wf; wf_tac);
+    unfold good; repeat (apply Forall_cons; [first [exact I | apply (proj1 (gR 1)) | apply (gA 2)]|]); apply Forall_nil.
+Qed.
+Example ex_list_text : tok_ok env retr ntxt 3 ex_tso.
+Proof.
+  apply ex_tok_ok; try reflexivity; try (vm_compute; lia).
+  - vm_compute. repeat match goal with
+         | |- _ /\ _ => split
+         | |- exists _, _ => eexists
+         | |- _ = _ => reflexivity
+         | |- True => exact I
+         | |- _ -> _ => intros; discriminate
+         end.
+  - unfold good. vm_compute. repeat (apply Forall_cons; [first [exact I | apply (proj1 (gR 1)) | apply (gA 2)]|]). apply Forall_nil.
+Qed.
+Example ex_list_closed_form :
+  resolve_string env retr (ref_text (L"env:YL"))
+  = Ok (CExp (CList (map (fun ts => CStr (mean ntxt 3 ts)) ex_tss)) (mean ntxt 3 ex_tso)).
+Proof.
+  apply (list_of_token_strings env retr ntxt (L"env:YL") (mkRet (CList [CStr (L"a${env:R}"); CStr (L"${env:A}b")]) (Some (L"[a${env:R}, ${env:A}b]")))).
+  - reflexivity.
+  - reflexivity.
+  - vm_compute. reflexivity.
+  - reflexivity.
+  - reflexivity.
+  - exact ex_list_members.
+  - exact ex_list_text.
+Qed.
+Example ex_list_value :
+  resolve_string env retr (ref_text (L"env:YL")) = Ok (CExp (CList [CStr (L"a<va>"); CStr (L"vab")]) (L"[a<va>, vab]")).
+Proof. vm_compute. reflexivity. Qed.
